@@ -190,6 +190,35 @@ example : atMostOnce isAcq (.loop (.seq (.ev (.act ⟨.acquired, "self.Lock"⟩)
     (.seq (.ev (.act ⟨.call, "queue_send"⟩)) (.seq (.ev (.act ⟨.release, "self.Lock"⟩)) (.ev (.aw "config_sleep")))))) = false := by
   decide +kernel
 
+abbrev structGetSk := sk_driver_async_spastruct__GeckoAsyncStructure_get
+
+def attemptStarts (a : A) : Bool := a.kind == .brT && a.name == "retry_count > 0"
+def budgetPaid (a : A) : Bool := a.kind == .set && a.name == "retry_count"
+
+/-- **every attempt consumes retry budget**, in the single-reply request AND in the multi-segment one (the status-block transfer):
+on every path from the start of one attempt to the start of the next, `retry_count` is assigned - whether the attempt ended with a
+timeout or, in the multi-segment request, with the final segment arriving out of sequence.  The multi-segment request holds the
+same lock in the same shape -/
+theorem every_attempt_consumes_budget :
+    everyIterationPays attemptStarts budgetPaid getSk = true ∧ everyIterationPays attemptStarts budgetPaid structGetSk = true ∧
+    alwaysHeld (fun a => a.kind == .acquired && a.name == "protocol.Lock") (fun a => a.kind == .release && a.name == "protocol.Lock") isSend structGetSk = true ∧
+    atMostOnce (fun a => a.kind == .acquired && a.name == "protocol.Lock") structGetSk = true := by decide +kernel
+
+theorem every_attempt_consumes_budget_traces (sk : Sk) (h : sk = getSk ∨ sk = structGetSk) (t : List Ev) (o : Out) (hr : Run sk t o) :
+    (runMon (owesMon attemptStarts budgetPaid) 0 t).isSome = true := by
+  rcases h with rfl | rfl
+  · exact scan_accepts _ 4 _ 0 every_attempt_consumes_budget.1 t o hr
+  · exact scan_accepts _ 4 _ 0 every_attempt_consumes_budget.2.1 t o hr
+
+/-- non-vacuity: both loops have the marker and the payment; a decrement in the timeout branch only is rejected -/
+example : "retry_count > 0" ∈ actions .brT structGetSk ∧ "retry_count" ∈ actions .set structGetSk ∧ "retry_count" ∈ actions .set getSk := by
+  decide +kernel
+
+example : everyIterationPays attemptStarts budgetPaid
+    (.loop (.seq (.ev (.act ⟨.brT, "retry_count > 0"⟩))
+      (.alt (.seq (.ev (.act ⟨.brF, "await request.wait_for_response(protocol)"⟩)) (.ev (.act ⟨.set, "retry_count"⟩)))
+            (.ev (.act ⟨.brT, "request.next == 0"⟩))))) = false := by decide +kernel
+
 end LockShape
 
 end GeckoModel.C06
